@@ -50,8 +50,8 @@ Record lrow := { l_id : Z; l_ik : string; l_inh : Z; l_own : option wid; l_tx : 
 
 Inductive cerr := EInsufficient | ERefConflict | EAlreadyReverted | ENotFound | EIkInput | EIkConflict | EDeadlock.
 Inductive cres := RNone | ROk (log tx : Z) (hit : bool) | RErr (e : cerr).
-Inductive cpc := PIk | PRev | PBal | PVol | PTx | PAdv | PLog | PCommit | PRollback | PFetch | PDone.
-Inductive clabel := LIk | LRev | LBal | LVol | LTx | LAdv | LLog | LCommit | LRollback.
+Inductive cpc := PIk | PRev | PBal | PBal2 | PVol | PTx | PAdv | PLog | PCommit | PRollback | PFetch | PDone.
+Inductive clabel := LIk | LRev | LBal | LBal2 | LVol | LTx | LAdv | LLog | LCommit | LRollback.
 Inductive cstatus := SDone | SBlocked | SDeadlock.
 
 Record wst := { w_op : cop; w_pc : cpc; w_retry : bool; w_err : option cerr; w_read : Z; w_locked : bool;
@@ -214,7 +214,12 @@ Definition bal_done (g : gst) (w : wid) (o : cop) (read : Z) (locked : bool) : g
   | None => upd_w g1 w (fun s => wset_pc s PVol)
   end.
 
-(* GetBalances: WITH ins AS (INSERT ... VALUES (k, 0, 0) ON CONFLICT DO NOTHING) SELECT ... WHERE k FOR UPDATE, one snapshot *)
+(* GetBalances, first statement: WITH ins AS (INSERT ... VALUES (k, 0, 0) ON CONFLICT DO NOTHING) SELECT ... WHERE k FOR UPDATE, one
+   snapshot.  When the row is not in the snapshot (it did not exist, or was inserted by a transaction that committed while this
+   statement waited) the SELECT returns nothing for k; GetBalances then issues the second statement (PBal2) which, with a new
+   snapshot, sees the row, locks it and reads it.  (Before the repair fixes/02-getbalances-fresh-pair it fell back to 0 without a
+   lock: known finding KF-C06-fresh-pair-overdraft.) *)
+Definition to_bal2 (g : gst) (w : wid) : gst := upd_w g w (fun s => wset_pc (wset_read s 0 false) PBal2).
 Definition do_bal (g : gst) (w : wid) (s : wst) : gst :=
   let o := w_op s in
   let k := src_key o in
@@ -227,21 +232,39 @@ Definition do_bal (g : gst) (w : wid) (s : wst) : gst :=
   let wait h := blocked (upd_w g w (fun s => wset_norow s (Some norow))) w h LBal in
   match r with
   | None =>
-    (* no row at all: the CTE inserts (k, 0, 0); the SELECT of the same statement does not see it; missing => balance 0.
+    (* no row at all: the CTE inserts (k, 0, 0); the SELECT of the same statement does not see it.
        The in-flight row is exclusively ours until the end of the transaction. *)
     let row := {| v_key := k; v_bal := 0; v_pend := 0; v_lock := Some w; v_new := true; v_upd := false |} in
-    ev (bal_done (set_vols g (g_vols g ++ [row])) w o 0 true) w LBal SDone
+    ev (to_bal2 (set_vols g (g_vols g ++ [row])) w) w LBal SDone
   | Some x =>
     match v_lock x with
     | Some h =>
-      if v_new x then wait h                               (* unique-index wait for the in-flight inserter *)
+      if Nat.eqb h w then blocked g w w LBal                    (* unreachable: a request reads its balances before it writes *)
+      else if v_new x then wait h                               (* unique-index wait for the in-flight inserter *)
       else if v_upd x then wait h                               (* the conflicting row is being updated: wait *)
-      else if norow then ev (bal_done g w o 0 false) w LBal SDone   (* DO NOTHING; the snapshot has no row: 0, and NO lock *)
+      else if norow then ev (to_bal2 g w) w LBal SDone          (* DO NOTHING; the snapshot has no row: nothing read, nothing locked *)
       else wait h                                               (* FOR UPDATE waits for the row lock *)
     | None =>
-      if norow then ev (bal_done g w o 0 false) w LBal SDone
+      if norow then ev (to_bal2 g w) w LBal SDone
       else (* lock the row; after a wait this is the newest committed version *)
         ev (bal_done (set_vols g (vtake (g_vols g) w k (fun x => {| v_key := v_key x; v_bal := v_bal x; v_pend := v_pend x; v_lock := Some w; v_new := v_new x; v_upd := v_upd x |}))) w o (v_bal x) true) w LBal SDone
+    end
+  end.
+
+(* GetBalances, second statement (new snapshot): SELECT ... WHERE k FOR UPDATE on the rows the first one did not return *)
+Definition do_bal2 (g : gst) (w : wid) (s : wst) : gst :=
+  let o := w_op s in
+  let k := src_key o in
+  match vfind (g_vols g) k with
+  | None => ev (bal_done g w o 0 false) w LBal2 SDone           (* unreachable: the first statement made sure the row exists *)
+  | Some x =>
+    match v_lock x with
+    | Some h =>
+      if Nat.eqb h w then                                        (* the row this transaction has just inserted: (0, 0) *)
+        (if v_pend x =? 0 then ev (bal_done g w o (v_bal x) true) w LBal2 SDone else ev (bal_done g w o (v_bal x) false) w LBal2 SDone)
+      else blocked g w h LBal2                                   (* FOR UPDATE waits for the row lock *)
+    | None =>
+      ev (bal_done (set_vols g (vtake (g_vols g) w k (fun x => {| v_key := v_key x; v_bal := v_bal x; v_pend := v_pend x; v_lock := Some w; v_new := v_new x; v_upd := v_upd x |}))) w o (v_bal x) true) w LBal2 SDone
     end
   end.
 
@@ -374,7 +397,7 @@ Definition step (g : gst) (w : wid) : gst :=
   | None => g
   | Some s =>
     match w_pc s with
-    | PIk => do_ik g w s | PRev => do_rev g w s | PBal => do_bal g w s | PVol => do_vol g w s | PTx => do_tx g w s
+    | PIk => do_ik g w s | PRev => do_rev g w s | PBal => do_bal g w s | PBal2 => do_bal2 g w s | PVol => do_vol g w s | PTx => do_tx g w s
     | PAdv => do_adv g w s | PLog => do_log g w s | PCommit => do_commit g w s | PRollback => do_rollback g w s
     | PFetch => do_fetch g w s | PDone => g
     end
